@@ -442,6 +442,32 @@ def run_shard(tier, seed, only, rank, nproc):
                 import traceback
 
                 b.error(f"{name} {opts} [{layout}]: {type(e).__name__}: {e} :: {traceback.format_exc()[-300:]}")
+    # translation invariance: d std(x + c)/dx = d std(x)/dx, likewise var -- at offsets c far larger than the spread of x, where a backward pass
+    # that recomputes the statistics with a cancelling formula (E[x^2] - E[x]^2) stops being the VJP of the (stable) forward pass.  The numeric
+    # oracle is useless at such magnitudes; the gradient at offset 0 (itself checked against the numeric VJP above) is the reference.
+    if rank == 0 and (not only or only in ("std", "var")):
+        for fname, fn in (("std", mg.std), ("var", mg.var)):
+            for dt, offsets, rtol in ((np.float64, (1e4, 1e6, 1e8, 1.7e9), 1e-5), (np.float32, (64.0, 4096.0), 2e-2)):
+                for axis, ddof, keepdims in ((None, 0, False), (0, 1, False), (-1, 0, True), ((0, 1), 1, False)):
+                    base = np.array([[0.0, 1.0, 3.0, 2.0], [5.0, 4.0, 7.0, 9.0], [2.0, 8.0, 1.0, 6.0]], dtype=dt)
+                    ref = None
+                    for off in (0.0,) + tuple(offsets):
+                        desc = dict(fn=fname, dtype=np.dtype(dt).name, axis=repr(axis), ddof=ddof, keepdims=keepdims, offset=off, contract="translation invariance of the gradient")
+                        t = mg.tensor((base + dt(off)).astype(dt))
+                        b.count("vjp")
+                        try:
+                            out = fn(t, axis=axis, ddof=ddof, keepdims=keepdims)
+                            g = np.arange(1, out.size + 1, dtype=np.float64).reshape(out.shape) / 3.0
+                            out.backward(g.astype(dt))
+                            got = np.asarray(t.grad, dtype=np.float64)
+                        except Exception as e:
+                            b.fail(f"C02.rest.{fname}.backward_raises", desc, f"{type(e).__name__}: {e}")
+                            continue
+                        if off == 0.0:
+                            ref = got
+                        elif ref is not None and not (np.all(np.isfinite(got)) and np.allclose(got, ref, rtol=rtol, atol=rtol * float(np.max(np.abs(ref))))):
+                            b.fail(f"C02.rest.{fname}.shift_invariance", desc, f"gradient at offset {off}: {got.ravel()[:4].tolist()}..., at offset 0: {ref.ravel()[:4].tolist()}...")
+                        b.case(desc, nontrivial=True)
     return b
 
 
